@@ -1,5 +1,5 @@
 (* C15 -- lemmas about the model in MeshCodec.v *)
-From OM Require Import Base.Lists Geom.MeshCodec.
+From OM Require Import Base.Lists Geom.MeshCodec Geom.MeshCodecFast.
 From Coq Require Import NArith ZifyBool ZifyNat.
 Local Open Scope nat_scope.
 
@@ -189,7 +189,7 @@ Proof.
 Qed.
 
 Lemma correct_local_consistent ix ts : NoDup (flat_map dedges ts) -> correct_local ix ts = ts.
-Proof. intros H. unfold correct_local. rewrite hco_consistent; auto. Qed.
+Proof. intros H. unfold correct_local. rewrite hco_fast_eq, hco_consistent; auto. Qed.
 
 (* the flood fill only ever swaps the first two vertices of a triangle *)
 Definition same_or_flipped (t t' : tri) : Prop := t' = t \/ t' = flip t.
@@ -235,7 +235,7 @@ Qed.
 
 Lemma correct_local_sof ix ts : Forall2 same_or_flipped ts (correct_local ix ts).
 Proof.
-  unfold correct_local. destruct (hco_tr ix ts); [apply sof_refl|].
+  unfold correct_local. destruct (hco_fast ix ts); [apply sof_refl|].
   destruct ts; [apply sof_refl|apply fill_sof].
 Qed.
 
@@ -344,7 +344,7 @@ Definition locally_consistent (m : mesh) : Prop := NoDup (flat_map dedges (tr m)
 Lemma local_triangles_wf m : wf_mesh m -> local_triangles m = Some (map (tri_map (locf (mv m))) (tr m)).
 Proof.
   intros [Hnd Hin]. unfold local_triangles. apply map_tris_total.
-  intros t g Ht Hg. unfold loc, locf.
+  intros t g Ht Hg. rewrite vpos_t_eq. unfold locf.
   destruct (vpos_in (mv m) g Hnd (Hin t g Ht Hg)) as [k [_ [_ ->]]]; auto.
 Qed.
 
@@ -643,7 +643,7 @@ Qed.
 Lemma reloaded_triangles (m : mesh) : wf_mesh m -> local_triangles (reloaded m) = local_triangles m.
 Proof.
   intros Hwf. rewrite (local_triangles_wf m Hwf). unfold local_triangles, reloaded; simpl.
-  apply map_tris_id. intros t g Ht Hg. unfold loc; simpl. apply vpos_seq. eapply local_lt; eauto.
+  apply map_tris_id. intros t g Ht Hg. rewrite vpos_t_eq. apply vpos_seq. eapply local_lt; eauto.
 Qed.
 
 Lemma reloaded_coords (m : mesh) : coords C c0 (reloaded m) = map vrnd (coords C c0 m).
@@ -655,7 +655,7 @@ Qed.
 
 Lemma consistent_preserved (m : mesh) : locally_consistent m -> has_correct_orientation m = true /\ update m = m.
 Proof.
-  intros H. split; [apply hco_consistent; auto | apply update_consistent; auto].
+  intros H. split; [unfold has_correct_orientation; rewrite hco_fast_eq; apply hco_consistent; auto | apply update_consistent; auto].
 Qed.
 
 Lemma add_vertices_fresh (vs : list V3) : pdistinct vs -> add_vertices C ceq [] vs = (vs, seq 0 (length vs)).
